@@ -141,7 +141,7 @@ def finish(pid, tier, seed, level, results, t0, checker_cmd, trusted_base, assum
     n_obl = n_dis = 0
     b_obl = b_dis = 0
     violations, undecided, known_hits = [], [], []
-    samples, units_ev, bounded_units = [], [], []
+    samples, units_ev, bounded_units, dropped_units = [], [], [], []
     solver_time = {}
     for r in results:
         n, d, f, u = r.counts()
@@ -189,6 +189,9 @@ def finish(pid, tier, seed, level, results, t0, checker_cmd, trusted_base, assum
         if r.extraction: ue["extraction"] = r.extraction
         if r.notes: ue["notes"] = r.notes[:6]
         if r.undecided_reason: ue["undecided_reason"] = r.undecided_reason
+        if getattr(r, "dropped_members", None):
+            dropped_units.append({"unit": r.id, "dropped_obligations_for_members": r.dropped_members,
+                                  "reason": "not reset at the pinned commit; whether a follow-up can observe the stale content is not decided by this technique"})
         units_ev.append(ue)
         print("UNIT  %-44s engine=%s %s obligations=%d discharged=%d failed=%d undecided=%d %.2fs%s" % (
             r.id, r.engine or "-", r.kind, n, d, f, u, r.seconds,
@@ -207,7 +210,7 @@ def finish(pid, tier, seed, level, results, t0, checker_cmd, trusted_base, assum
     cov = {"obligations": n_obl, "discharged": n_dis, "checker_cmd": checker_cmd,
            "trusted_base": trusted_base, "samples": samples,
            "units": units_ev, "functions_under_contract": sorted({u["function"] for u in units_ev if u["function"]}),
-           "bounded_units": bounded_units, "bounded_obligations": b_obl, "bounded_discharged": b_dis,
+           "bounded_units": bounded_units, "dropped_units": dropped_units, "bounded_obligations": b_obl, "bounded_discharged": b_dis,
            "undecided": [{"unit": u, "reason": w[:300]} for u, w in undecided],
            "known_findings": [{"unit": u, "obligation": o.name, "what": k.get("what")} for u, o, k in known_hits],
            "solver_time_s": {k: round(v, 2) for k, v in solver_time.items()},
